@@ -382,7 +382,10 @@ consumer<char> c_read_chars(std::size_t n)
               return std::string("nothing");
             return val(std::string(r.get_unsafe().begin(), r.get_unsafe().end()));
           },
-          [n](std::string const &t) { return n <= t.size() ? val(t.substr(0, n)) : std::string("nothing"); },
+          // "Tries to read count chars": no expectation for a request of zero characters
+          n == 0 ? std::function<std::string(std::string const &)>{}
+                 : std::function<std::string(std::string const &)>{
+                       [n](std::string const &t) { return n <= t.size() ? val(t.substr(0, n)) : std::string("nothing"); }},
           [n](std::string const &t, std::string const &sum) { return sum == "nothing" || (n <= t.size() && sum == val(t.substr(0, n))); }};
 }
 
@@ -471,7 +474,7 @@ void c01::register_streams()
       drive(c_stream_to_string<wchar_t>("wchar_t"));
       drive_files(c_stream_to_string<wchar_t>("wchar_t"), root);
     });
-  }, 5);
+  }, 10);
   vrt::shard("streams/get_peek", [] {
     shard_body("gp", [](std::string const &root) {
       drive(c_get<char>("char", false));
@@ -482,7 +485,7 @@ void c01::register_streams()
       drive_files(c_get<wchar_t>("wchar_t", false), root);
       drive(c_get<wchar_t>("wchar_t", true));
     });
-  }, 5);
+  }, 10);
   vrt::shard("streams/read_chars", [] {
     shard_body("rc", [](std::string const &root) {
       for (std::size_t n : {std::size_t(0), std::size_t(1), std::size_t(2), std::size_t(4)})
@@ -491,7 +494,7 @@ void c01::register_streams()
         drive_files(c_read_chars(n), root);
       }
     });
-  }, 5);
+  }, 10);
   vrt::shard("streams/read", [] {
     shard_body("rd", [](std::string const &root) {
       drive(c_read<u8>("u8", std::endian::little));
@@ -500,7 +503,7 @@ void c01::register_streams()
       drive(c_read<u32>("u32", std::endian::big));
       drive_files(c_read<u32>("u32", std::endian::big), root);
     });
-  }, 5);
+  }, 10);
   vrt::shard("streams/extract", [] {
     shard_body("ex", [](std::string const &root) {
       drive(c_extract<int>("int"));
@@ -509,17 +512,17 @@ void c01::register_streams()
       drive_files(c_extract<std::string>("std::string"), root);
       drive(c_extract<char>("char"));
     });
-  }, 5);
+  }, 10);
   vrt::shard("streams/parse_int", [] {
     shard_body("pi", [](std::string const &root) {
       drive(c_parse_int());
       drive_files(c_parse_int(), root);
     });
-  }, 5);
+  }, 10);
   vrt::shard("streams/parse_words", [] {
     shard_body("pw", [](std::string const &root) {
       drive(c_phrase_parse_words());
       drive_files(c_phrase_parse_words(), root);
     });
-  }, 5);
+  }, 10);
 }
